@@ -508,7 +508,9 @@ Record c15_case := mkCase15 {
   k_factory : bool;
   k_ops : list op;
   k_trace : list ostep;
-  k_final : ofinal
+  k_final : ofinal;
+  k_probes : list Z;          (* ids of the finished cell that were asked for again with add_segment(seg_id=...) *)
+  k_probe_obs : list ostep    (* what each of those calls did (OOtherErr = it returned normally) *)
 }.
 
 Definition kinds : list pkind := [SpikeThresh; InitMembPotential; SpecificCapacitance; Resistivity].
@@ -577,9 +579,28 @@ Definition model_final (fx : bool) (ops : list op) (c : cell) : ofinal :=
 
 Definition init_of (factory : bool) : cell := if factory then init_factory else init_bare.
 
+(* asking for an id that is in use, on the finished cell: add_segment(None, dist, seg_id=z, parent=segments[0],
+   use_convention=False, optimise_segment_groups=False); a refused call changes nothing *)
+Definition probe (c : cell) (z : Z) : ostep :=
+  match add_segment true c false (Some z) None (Some 0%nat) 4 None false None false false with
+  | BRet _ => OOtherErr
+  | BErr e => OErr e
+  end.
+
+Definition model_probes (ops : list op) (c0 : cell) (zs : list Z) : list ostep :=
+  match run true ops c0 with
+  | BErr _ => []
+  | BRet c => match finish c with
+              | BRet c' => map (probe c') zs
+              | BErr _ => []
+              end
+  end.
+
 Definition case15_ok (fx : bool) (k : c15_case) : bool :=
   list_eqb ostep_eqb (trace fx (k_ops k) (init_of (k_factory k))) (k_trace k)
-  && ofinal_eqb (model_final fx (k_ops k) (init_of (k_factory k))) (k_final k).
+  && ofinal_eqb (model_final fx (k_ops k) (init_of (k_factory k))) (k_final k)
+  && (if fx then list_eqb ostep_eqb (model_probes (k_ops k) (init_of (k_factory k)) (k_probes k)) (k_probe_obs k)
+      else true).
 
 Fixpoint idx_where {A : Type} (bad : A -> bool) (n : nat) (l : list A) : list nat :=
   match l with
